@@ -758,14 +758,13 @@ Qed.
 Definition val_end (rest : str) : bool :=
   match rest with
   | [] => true
-  | c :: _ => (c =? 44) || (c =? 93) || (c =? 125)
+  | c :: _ => (c =? 44) || (c =? 93) || (c =? 125) || is_ws c
   end.
 
 Lemma val_end_num_end rest : val_end rest = true -> num_end rest = true.
 Proof.
-  destruct rest as [|c t]; [reflexivity|]. simpl. intro H.
-  apply orb_true_iff in H as [H|H]; [apply orb_true_iff in H as [H|H]|];
-    apply N.eqb_eq in H; subst c; reflexivity.
+  destruct rest as [|c t]; [reflexivity|]. cbn [val_end]. unfold is_ws. intro H.
+  repeat (apply orb_true_iff in H as [H|H]); apply N.eqb_eq in H; subst c; reflexivity.
 Qed.
 
 Lemma jv_ind2 (P : jv -> Prop)
@@ -1002,6 +1001,221 @@ Proof.
   destruct (proj1 (parsers_mono (fuel + fuel) (Nat.max (fuel + fuel) f) (Nat.le_max_l _ _)) 0 (print_json j)) as [E|E].
   - rewrite E in T. simpl in T. congruence.
   - rewrite E. rewrite (pval_mono f _ _ _ _ _ (Nat.le_max_r (fuel + fuel) f) Hp). reflexivity.
+Qed.
+
+(* ------------------------------------------------------------------ *)
+(** * White space between tokens is irrelevant *)
+
+Lemma skip_ws_app w s : all_ws w = true -> skip_ws (w ++ s) = skip_ws s.
+Proof.
+  induction w as [|c w IH]; [reflexivity|]. cbn [all_ws forallb app skip_ws]. intro H.
+  apply andb_true_iff in H as [Hc Hw]. rewrite Hc. now apply IH.
+Qed.
+
+Lemma pval_skip f d s : pval f d (skip_ws s) = pval f d s.
+Proof. destruct f; [reflexivity|]. rewrite !pval_S. unfold pval_body. now rewrite skip_ws_idem. Qed.
+
+Lemma pelems_skip f d s : pelems f d (skip_ws s) = pelems f d s.
+Proof. destruct f; [reflexivity|]. rewrite !pelems_S. unfold pelems_body. now rewrite pval_skip. Qed.
+
+Lemma pmembers_skip f d s : pmembers f d (skip_ws s) = pmembers f d s.
+Proof. destruct f; [reflexivity|]. rewrite !pmembers_S. unfold pmembers_body. now rewrite skip_ws_idem. Qed.
+
+Lemma pval_lead_ws f d w s : all_ws w = true -> pval f d (w ++ s) = pval f d s.
+Proof. intro H. rewrite <- (pval_skip f d (w ++ s)), <- (pval_skip f d s). now rewrite skip_ws_app. Qed.
+
+Lemma val_ends_app w c rest : all_ws w = true -> val_end (c :: rest) = true -> val_end (w ++ c :: rest) = true.
+Proof.
+  destruct w as [|x w]; [auto|]. cbn [all_ws forallb app val_end]. intros H _.
+  apply andb_true_iff in H as [Hx _]. rewrite Hx. now rewrite !orb_true_r.
+Qed.
+
+Lemma wjv_ind2 (P : wjv -> Prop)
+  (Ha : forall j, P (WAtom j))
+  (Harr : forall w0 l, Forall (fun e : str * wjv * str => P (snd (fst e))) l -> P (WArr w0 l))
+  (Hobj : forall w0 m, Forall (fun e : str * str * str * str * wjv * str => P (snd (fst e))) m -> P (WObj w0 m)) :
+  forall d, P d.
+Proof.
+  fix IH 1. intro d. destruct d as [j|w0 l|w0 m].
+  - apply Ha.
+  - apply Harr. induction l as [|[[wb x] wa] l IHl]; constructor; [apply IH | exact IHl].
+  - apply Hobj. induction m as [|[[[[[wb k] wk] wc] v] wa] m IHm]; constructor; [apply IH | exact IHm].
+Qed.
+
+Definition reads_back_w (x : wjv) : Prop :=
+  forall d rest, ws_okb x = true -> jv_utf8 (erase x) = true -> d + jdepth (erase x) <= max_depth ->
+  val_end rest = true ->
+  exists f, pval f d (wprint x ++ rest) = POk (erase x) rest.
+
+Definition erase_elem (e : str * wjv * str) : jv := erase (snd (fst e)).
+Definition erase_member (e : str * str * str * str * wjv * str) : str * jv :=
+  match e with (_, k, _, _, v, _) => (k, erase v) end.
+Definition elem_ws_ok (e : str * wjv * str) : bool :=
+  match e with (wb, x, wa) => all_ws wb && ws_okb x && all_ws wa end.
+Definition member_ws_ok (e : str * str * str * str * wjv * str) : bool :=
+  match e with (wb, _, wk, wc, v, wa) => all_ws wb && all_ws wk && all_ws wc && ws_okb v && all_ws wa end.
+
+Lemma wprint_head x : exists c r, wprint x = c :: r /\ val_start c.
+Proof.
+  destruct x as [j|w0 l|w0 m].
+  - apply print_json_head.
+  - exists 91, (w0 ++ wprint_elems wprint l). repeat split.
+  - exists 123, (w0 ++ wprint_members wprint m). repeat split.
+Qed.
+
+Lemma welems_print : forall l, l <> [] -> Forall (fun e => reads_back_w (snd (fst e))) l ->
+  forall d rest, forallb elem_ws_ok l = true -> forallb jv_utf8 (List.map erase_elem l) = true ->
+  (forall x, In x (List.map erase_elem l) -> d + jdepth x <= max_depth) -> val_end rest = true ->
+  exists f, pelems f d (wprint_elems wprint l ++ rest) = POk (List.map erase_elem l) rest.
+Proof.
+  induction l as [|[[wb x] wa] l IH]; [congruence|]. intros _ HF d rest Hw Hu Hd He.
+  inversion HF as [|? ? Hx HF']; subst. cbn [snd fst] in Hx.
+  cbn [forallb List.map] in Hw, Hu, Hd. unfold erase_elem at 1 in Hu. unfold erase_elem at 1 in Hd. cbn [snd fst] in Hu, Hd.
+  apply andb_true_iff in Hw as [Hwx Hwl]. unfold elem_ws_ok in Hwx.
+  apply andb_true_iff in Hwx as [Hwx Hwa]. apply andb_true_iff in Hwx as [Hwb Hwx].
+  apply andb_true_iff in Hu as [Hux Hul].
+  assert (Hdx : d + jdepth (erase x) <= max_depth) by (apply Hd; now left).
+  destruct l as [|e' l'].
+  - cbn [wprint_elems List.map]. norm_app.
+    destruct (Hx d (wa ++ 93 :: rest) Hwx Hux Hdx (val_ends_app wa 93 rest Hwa eq_refl)) as [f Hf].
+    exists (S f). rewrite pelems_S. unfold pelems_body. rewrite (pval_lead_ws f d wb _ Hwb), Hf. cbn [pbind].
+    rewrite (skip_ws_app wa _ Hwa). change (skip_ws (93 :: rest)) with (93 :: rest). reflexivity.
+  - change (wprint_elems wprint ((wb, x, wa) :: e' :: l'))
+      with (wb ++ wprint x ++ wa ++ 44 :: wprint_elems wprint (e' :: l')).
+    norm_app.
+    destruct (Hx d (wa ++ 44 :: wprint_elems wprint (e' :: l') ++ rest) Hwx Hux Hdx
+                 (val_ends_app wa 44 _ Hwa eq_refl)) as [f1 Hf1].
+    destruct (IH ltac:(discriminate) HF' d rest Hwl Hul (fun z Hz => Hd z (or_intror Hz)) He) as [f2 Hf2].
+    exists (S (Nat.max f1 f2)). rewrite pelems_S. unfold pelems_body.
+    rewrite (pval_lead_ws _ d wb _ Hwb).
+    rewrite (pval_mono f1 _ _ _ _ _ (Nat.le_max_l f1 f2) Hf1). cbn [pbind].
+    rewrite (skip_ws_app wa _ Hwa).
+    match goal with |- context [skip_ws (44 :: ?X)] => change (skip_ws (44 :: X)) with (44 :: X) end.
+    cbv beta iota. change (44 =? 44) with true. cbv beta iota.
+    rewrite (pelems_mono f2 _ _ _ _ _ (Nat.le_max_r f1 f2) Hf2). reflexivity.
+Qed.
+
+Lemma wmembers_print : forall m, m <> [] -> Forall (fun e => reads_back_w (snd (fst e))) m ->
+  forall d rest, forallb member_ws_ok m = true ->
+  forallb (fun kv => utf8_valid (fst kv) && jv_utf8 (snd kv)) (List.map erase_member m) = true ->
+  (forall kv, In kv (List.map erase_member m) -> d + jdepth (snd kv) <= max_depth) -> val_end rest = true ->
+  exists f, pmembers f d (wprint_members wprint m ++ rest) = POk (List.map erase_member m) rest.
+Proof.
+  induction m as [|[[[[[wb k] wk] wc] v] wa] m IH]; [congruence|]. intros _ HF d rest Hw Hu Hd He.
+  inversion HF as [|? ? Hx HF']; subst. cbn [snd fst] in Hx.
+  cbn [forallb List.map] in Hw, Hu, Hd. unfold erase_member at 1 in Hu. unfold erase_member at 1 in Hd. cbn [snd fst] in Hu.
+  apply andb_true_iff in Hw as [Hwx Hwl]. unfold member_ws_ok in Hwx.
+  apply andb_true_iff in Hwx as [Hwx Hwa]. apply andb_true_iff in Hwx as [Hwx Hwv].
+  apply andb_true_iff in Hwx as [Hwx Hwc]. apply andb_true_iff in Hwx as [Hwb Hwk].
+  apply andb_true_iff in Hu as [Hukv Hul]. apply andb_true_iff in Hukv as [Huk Huv].
+  assert (Hdv : d + jdepth (erase v) <= max_depth) by (apply (Hd (k, erase v)); now left).
+  destruct m as [|e' m'].
+  - cbn [wprint_members List.map]. norm_app. rewrite print_str_app.
+    destruct (Hx d (wa ++ 125 :: rest) Hwv Huv Hdv (val_ends_app wa 125 rest Hwa eq_refl)) as [f Hf].
+    exists (S f). rewrite pmembers_S. unfold pmembers_body.
+    rewrite (skip_ws_app wb _ Hwb).
+    match goal with |- context [skip_ws (34 :: ?X)] => change (skip_ws (34 :: X)) with (34 :: X) end.
+    cbv beta iota. change (34 =? 34) with true. cbv beta iota.
+    rewrite (pstr_print k Huk). cbv beta iota.
+    rewrite (skip_ws_app wk _ Hwk).
+    match goal with |- context [skip_ws (58 :: ?X)] => change (skip_ws (58 :: X)) with (58 :: X) end.
+    cbv beta iota. change (58 =? 58) with true. cbv beta iota.
+    rewrite (pval_lead_ws f d wc _ Hwc), Hf. cbn [pbind].
+    rewrite (skip_ws_app wa _ Hwa). change (skip_ws (125 :: rest)) with (125 :: rest). reflexivity.
+  - change (wprint_members wprint ((wb, k, wk, wc, v, wa) :: e' :: m'))
+      with (wb ++ print_str k ++ wk ++ 58 :: wc ++ wprint v ++ wa ++ 44 :: wprint_members wprint (e' :: m')).
+    norm_app. rewrite print_str_app.
+    destruct (Hx d (wa ++ 44 :: wprint_members wprint (e' :: m') ++ rest) Hwv Huv Hdv
+                 (val_ends_app wa 44 _ Hwa eq_refl)) as [f1 Hf1].
+    destruct (IH ltac:(discriminate) HF' d rest Hwl Hul (fun z Hz => Hd z (or_intror Hz)) He) as [f2 Hf2].
+    exists (S (Nat.max f1 f2)). rewrite pmembers_S. unfold pmembers_body.
+    rewrite (skip_ws_app wb _ Hwb).
+    match goal with |- context [skip_ws (34 :: ?X)] => change (skip_ws (34 :: X)) with (34 :: X) end.
+    cbv beta iota. change (34 =? 34) with true. cbv beta iota.
+    rewrite (pstr_print k Huk). cbv beta iota.
+    rewrite (skip_ws_app wk _ Hwk).
+    match goal with |- context [skip_ws (58 :: ?X)] => change (skip_ws (58 :: X)) with (58 :: X) end.
+    cbv beta iota. change (58 =? 58) with true. cbv beta iota.
+    rewrite (pval_lead_ws _ d wc _ Hwc).
+    rewrite (pval_mono f1 _ _ _ _ _ (Nat.le_max_l f1 f2) Hf1). cbn [pbind].
+    rewrite (skip_ws_app wa _ Hwa).
+    match goal with |- context [skip_ws (44 :: ?X)] => change (skip_ws (44 :: X)) with (44 :: X) end.
+    cbv beta iota. change (44 =? 44) with true. cbv beta iota.
+    rewrite (pmembers_mono f2 _ _ _ _ _ (Nat.le_max_r f1 f2) Hf2). reflexivity.
+Qed.
+
+Lemma wprint_reads : forall x, reads_back_w x.
+Proof.
+  apply wjv_ind2; unfold reads_back_w.
+  - intros j d rest _ Hu Hd He. cbn [wprint erase] in *. now apply pval_print.
+  - intros w0 l HF d rest Hw Hu Hd He. cbn [wprint erase ws_okb jv_utf8 jdepth] in *.
+    fold erase_elem in *. fold elem_ws_ok in Hw.
+    apply andb_true_iff in Hw as [Hw0 Hwl].
+    assert (Hdep : (max_depth <? d + 1) = false) by (apply N.ltb_ge; lia).
+    destruct l as [|e l'].
+    + exists 1%nat. rewrite pval_S. cbn [wprint_elems app List.map]. rewrite pval_body_start by reflexivity.
+      change (91 =? 91) with true. cbv beta iota. rewrite Hdep. norm_app.
+      rewrite (skip_ws_app w0 _ Hw0). change (skip_ws (93 :: rest)) with (93 :: rest). reflexivity.
+    + destruct (welems_print (e :: l') ltac:(discriminate) HF (d + 1) rest Hwl Hu) as [f Hf]; [|exact He|].
+      { intros z Hz. pose proof (jdepth_in_arr z _ Hz). lia. }
+      exists (S f). rewrite pval_S. cbn [app]. rewrite pval_body_start by reflexivity.
+      change (91 =? 91) with true. cbv beta iota. rewrite Hdep. norm_app. cbv zeta.
+      rewrite (skip_ws_app w0 _ Hw0). rewrite pelems_skip, Hf.
+      (* the first element starts, after white space, with a byte that is not a bracket *)
+      assert (Hh : hd_is 93 (skip_ws (wprint_elems wprint (e :: l') ++ rest)) = false).
+      { destruct e as [[wb x] wa]. cbn [forallb] in Hwl. apply andb_true_iff in Hwl as [Hwe _].
+        unfold elem_ws_ok in Hwe. apply andb_true_iff in Hwe as [Hwe _]. apply andb_true_iff in Hwe as [Hwb _].
+        destruct (wprint_head x) as (c & r & Ex & Hs).
+        assert (Est : exists r', wprint_elems wprint ((wb, x, wa) :: l') ++ rest = wb ++ c :: r').
+        { destruct l' as [|y l'']; cbn [wprint_elems]; rewrite Ex; norm_app; eauto. }
+        destruct Est as [r' ->]. rewrite (skip_ws_app wb _ Hwb), (skip_ws_start c r' Hs).
+        destruct Hs as (_ & H93 & _). exact H93. }
+      rewrite Hh. reflexivity.
+  - intros w0 m HF d rest Hw Hu Hd He. cbn [wprint erase ws_okb jv_utf8 jdepth] in *.
+    fold erase_member in *. fold member_ws_ok in Hw.
+    apply andb_true_iff in Hw as [Hw0 Hwl].
+    assert (Hdep : (max_depth <? d + 1) = false) by (apply N.ltb_ge; lia).
+    destruct m as [|e m'].
+    + exists 1%nat. rewrite pval_S. cbn [wprint_members app List.map]. rewrite pval_body_start by reflexivity.
+      change (123 =? 91) with false. change (123 =? 123) with true. cbv beta iota. rewrite Hdep. norm_app.
+      rewrite (skip_ws_app w0 _ Hw0). change (skip_ws (125 :: rest)) with (125 :: rest). reflexivity.
+    + destruct (wmembers_print (e :: m') ltac:(discriminate) HF (d + 1) rest Hwl Hu) as [f Hf]; [|exact He|].
+      { intros z Hz. pose proof (jdepth_in_obj z _ Hz). lia. }
+      exists (S f). rewrite pval_S. cbn [app]. rewrite pval_body_start by reflexivity.
+      change (123 =? 91) with false. change (123 =? 123) with true. cbv beta iota. rewrite Hdep. norm_app. cbv zeta.
+      rewrite (skip_ws_app w0 _ Hw0). rewrite pmembers_skip, Hf.
+      assert (Hh : hd_is 125 (skip_ws (wprint_members wprint (e :: m') ++ rest)) = false).
+      { destruct e as [[[[[wb k] wk] wc] v] wa]. cbn [forallb] in Hwl. apply andb_true_iff in Hwl as [Hwe _].
+        unfold member_ws_ok in Hwe. repeat (apply andb_true_iff in Hwe as [Hwe _]).
+        assert (Est : exists r', wprint_members wprint ((wb, k, wk, wc, v, wa) :: m') ++ rest = wb ++ 34 :: r').
+        { destruct m' as [|y m'']; cbn [wprint_members]; norm_app; rewrite print_str_app; eauto. }
+        destruct Est as [r' ->]. rewrite (skip_ws_app wb _ Hwe). reflexivity. }
+      rewrite Hh. reflexivity.
+Qed.
+
+(** any amount of JSON white space before, after and between the tokens of a
+    printed value: the text parses to the same value *)
+Theorem whitespace_irrelevant x w1 w2 fuel :
+  ws_okb x = true -> all_ws w1 = true -> all_ws w2 = true -> text_ok (erase x) = true ->
+  (length (w1 ++ wprint x ++ w2) + 1 <= fuel)%nat ->
+  parse_json fuel (w1 ++ wprint x ++ w2) = Some (erase x).
+Proof.
+  intros Hw H1 H2 Hok Hf. destruct (text_ok_facts _ Hok) as [Hu Hd].
+  assert (He : val_end w2 = true).
+  { destruct w2 as [|c w]; [reflexivity|]. cbn [all_ws forallb] in H2. apply andb_true_iff in H2 as [Hc _].
+    cbn [val_end]. rewrite Hc. now rewrite !orb_true_r. }
+  destruct (wprint_reads x 0 w2 Hw Hu ltac:(lia) He) as [f Hp].
+  rewrite <- (pval_lead_ws f 0 w1 _ H1) in Hp.
+  pose proof (parse_total fuel _ Hf) as T.
+  unfold parse_json, parse_json_res in *.
+  set (b := w1 ++ wprint x ++ w2) in *.
+  destruct (proj1 (parsers_mono (fuel + fuel) (Nat.max (fuel + fuel) f) (Nat.le_max_l _ _)) 0 b) as [E|E].
+  - rewrite E in T. simpl in T. congruence.
+  - rewrite E. rewrite (pval_mono f _ _ _ _ _ (Nat.le_max_r (fuel + fuel) f) Hp). cbn [pbind].
+    assert (Hs : skip_ws w2 = []).
+    { clear -H2. induction w2 as [|c w IH]; [reflexivity|]. cbn [all_ws forallb] in H2.
+      apply andb_true_iff in H2 as [Hc Hw]. cbn [skip_ws]. rewrite Hc. now apply IH. }
+    rewrite Hs. reflexivity.
 Qed.
 
 (* ------------------------------------------------------------------ *)
